@@ -311,8 +311,21 @@ def work(task):
     return name, stats, violations
 
 
+def extra_starts():
+    """Two apps whose models have the SAME class name (relations between
+    them are told apart by app label only)."""
+    from vf.spec import F, M, A, P
+    return [('S3-same-names', P(
+        A('va', [M('Tag', [F('name', 'Char', max_length=20)])]),
+        A('vab', [M('Tag', [F('name', 'Char', max_length=20)]),
+                  M('Item', [F('title', 'Char', max_length=20),
+                             F('tag', 'FK', to='va.Tag', null=True)])])))]
+
+
 def tasks_for(tier):
     tasks = []
+    for name, p in extra_starts():
+        tasks.append((name, p, 1 if tier == 'quick' else 2, 'full', None))
     if tier == 'quick':
         for name, p in starts.s1() + starts.s2() + starts.s3():
             tasks.append((name, p, 1, 'full', None))
